@@ -104,6 +104,9 @@ def nv_step(ctx):
         res.payouts = [(a, N(b), N(c)) for a, b, c in res.payouts]
         if prop == "C01":
             _c01_checks(ctx, w, raw1, f"after {tag} [{'accepted' if res.accepted else 'rejected'}]")
+        elif prop == "C04":
+            if not res.accepted:
+                ctx.check_all(_raw_equal(raw0, raw1, f"{tag} rejected[{res.label}]"))
         else:
             dust = N(SNAP) * res.touched * (1 + N(D("1e-9"))) + res.extra_dust + N(RHO) * (sabs(o0) + 1)
             acc = "accepted" if res.accepted else "rejected"
@@ -131,10 +134,33 @@ def nv_step(ctx):
                 items.append((f"{tag}: pays out no more {lab} than is held", paid <= held * (1 + N(SNAP)) + res.extra_dust))
             ctx.check_all(items)
         raw0, o0, r0, tol0 = raw1, o1, r1, tol1
-    if prop == "C03":
+    if prop in ("C03", "C04"):
         ctx.check("CANARY operations never change the wallet", w.wallet_unchanged())
     else:
         ctx.check("CANARY markets hold nothing", r0 == N(w.wallet_value(raw0)))
+
+
+def _raw_equal(a, b, prefix, path=""):
+    """component-wise equality of two raw-state snapshots -> [(label, condition)]"""
+    items = []
+    if isinstance(a, dict):
+        if set(a) != set(b if isinstance(b, dict) else {}):
+            return [(f"{prefix}: {path or 'state'} key set unchanged", False)]
+        for k in a:
+            if k == "lp":
+                continue  # derived amounts (oracle side), not state
+            items += _raw_equal(a[k], b[k], prefix, f"{path}.{k}" if path else str(k))
+        return items
+    if isinstance(a, (list, tuple)) and not hasattr(a, "_fields"):
+        if not isinstance(b, (list, tuple)) or len(a) != len(b):
+            return [(f"{prefix}: {path} unchanged", False)]
+        for i, (x, y) in enumerate(zip(a, b)):
+            items += _raw_equal(x, y, prefix, path)
+        return items
+    import re
+
+    lab = re.sub(r"PositionInfo\([^)]*\)|\b\d+\b", "#", path)
+    return [(f"{prefix}: {lab} unchanged", a == b)]
 
 
 def _c01_checks(ctx, w, raw, when):
